@@ -36,6 +36,16 @@ impl ConnIdMapper {
         self.right[usize::from(id)]
     }
 
+    /// Returns the mapper equivalent to applying `self` and then `other`.
+    ///
+    /// Both mappers must be defined on the same numbers of ids.
+    pub fn compose(&self, other: &Self) -> Self {
+        Self::new(
+            self.left.iter().map(|&id| other.left(id)).collect(),
+            self.right.iter().map(|&id| other.right(id)).collect(),
+        )
+    }
+
     pub fn from_iter<L, R>(lmap: L, rmap: R) -> Result<Self>
     where
         L: IntoIterator<Item = u16>,
